@@ -293,6 +293,39 @@ def classify_loop(ctx, b, cfg, E, h, blocks):
                             for val, tg in zip(tt["vals"], tt["targets"]):
                                 if val != vi and cfg.dominates(tg, x) and tg != y:
                                     oneshot.add(x)
+        # ... the same state kept with `mem::replace(&mut self.state, State::Later)`: the arm taken for an *old* value
+        # other than the one written can be taken once
+        for x in blocks:
+            tt = b.blocks[x]["term"]
+            if not (tt and tt["k"] == "call" and re.search(r"mem::replace$", callee_name(tt)) and len(tt["args"]) == 2 and not tt["dest"]["p"]):
+                continue
+            ev = E.operand(tt["args"][1])
+            if not (ev[0] == "agg" and not ev[2] and str(ev[1]).startswith("blockwatch::") and "::" in str(ev[1])):
+                continue
+            apath, avar = str(ev[1]).rsplit("::", 1)
+            ad = ctx.facts.adts.get(apath) or {}
+            names = [v.get("name") for v in ad.get("variants", [])]
+            if ad.get("kind") != "enum" or avar not in names:
+                continue
+            vi = names.index(avar)
+            flag_txt = render(E.operand(tt["args"][0]), 200)
+            other = any(s2["k"] == "assign" and s2["lhs"]["p"] and render(E.place(s2["lhs"]), 200).startswith(flag_txt) and E.rvalue(s2["rv"]) != ev
+                        for y in blocks for s2 in b.blocks[y]["stmts"])
+            other = other or any(y != x and b.blocks[y]["term"] and b.blocks[y]["term"]["k"] == "call" and re.search(r"mem::(replace|take|swap)$", callee_name(b.blocks[y]["term"]))
+                                 and b.blocks[y]["term"]["args"] and render(E.operand(b.blocks[y]["term"]["args"][0]), 200) == flag_txt for y in blocks)
+            if other:
+                continue
+            dl = tt["dest"]["l"]
+            for y in blocks:
+                t2 = b.blocks[y]["term"]
+                if not (t2 and t2["k"] == "switch"):
+                    continue
+                pl = t2["op"].get("c") or t2["op"].get("m")
+                ds = [d for d in b.defs().get(pl["l"], [])] if pl and not pl["p"] else []
+                if len(ds) == 1 and ds[0][0] == "stmt" and ds[0][3]["rv"]["k"] == "discr" and ds[0][3]["rv"]["place"]["l"] == dl and not ds[0][3]["rv"]["place"]["p"]:
+                    for val, tg in zip(t2["vals"], t2["targets"]):
+                        if val != vi and tg != y:
+                            oneshot.add(tg)
         moves = moves | oneshot
         outside = set(range(cfg.n)) - set(blocks)
         r = set()
